@@ -1,7 +1,7 @@
 (* Props/C24.v — property theorems only.
-   C24: "for every format string built from the directives the interpreter supports and every argument list,
+   C24: DQUOTEfor every format string built from the directives the interpreter supports and every argument list,
    printf and echo -e write the same bytes and return the same status as bash's builtins, including reusing
-   the format while arguments remain."
+   the format while arguments remain.DQUOTE
    The full statement  forall argv, builtin argv = bash argv  is FALSE for the faithful model: see the
    C24_*_refuted witnesses (one per narrow known class).  The positive theorems are stated on the domain of
    the partial Spec (Expand/Format.v, part 3: bash's rules per directive; None outside the subset). *)
@@ -30,15 +30,37 @@ Theorem C24_no_panic_echo : forall args, echo_builtin args <> BPanic /\ echo_bui
 Proof. exact echo_builtin_ok. Qed.
 Print Assumptions C24_no_panic_echo.
 
+(* C24_format_matches, proved part.  Full statement wanted:
+     forall fmt args out st, spec_printf fmt args = Some (out, st) -> printf_builtin (fmt :: args) = BOut out st
+   (the Spec's domain = the directive subset on which the code is right).  PROVED here for ALL formats and ALL
+   argument lists in that domain whose directives are %s %c %b %% (any flag / 0 / width the Spec admits), with every
+   escape sequence in the format and in %b arguments, and with the reuse of the format while arguments remain.
+   MISSING (hence _partial): the numeric conversions %d %i %u %o %x, i.e. the two lemmas
+     spec_int arg = Some v -> parse_int0 arg = v      (strtoimax = strconv.ParseInt on complete in-range integers)
+     go_fmt_integer = C's sign/zero/space padding
+   which are covered by the code leg + oracle leg only (model = Go and Spec = bash on every generated case). *)
+Theorem C24_format_matches_partial : forall fmt args out st items,
+  spec_printf fmt args = Some (out, st) ->
+  spec_parse (S (length fmt)) fmt = Some items -> nonnum_items items = true ->
+  printf_builtin (fmt :: args) = BOut out st.
+Proof. exact printf_matches_nonnum. Qed.
+Print Assumptions C24_format_matches_partial.
+
+(* the hypotheses are satisfiable by a non-trivial input (flags, width, escapes, %b with \0NNN, %%, reuse) *)
+Example C24_format_matches_nonvacuous :
+  exists items out, spec_parse (S (length ex_fmt)) ex_fmt = Some items /\ nonnum_items items = true /\
+    spec_printf ex_fmt ex_args = Some (out, 0) /\ has_dir items = true /\ out <> [].
+Proof. exact printf_matches_nonnum_nonvacuous. Qed.
+
 (* echo [-n] [-e] [-E] ...: for ALL argument lists inside the Spec's domain (option words exactly -n/-e/-E, the
    last of -e/-E wins; under -e every escape \a \b \e \E \f \n \r \t \v \\ \0NNN \xHH \uHHHH \UHHHHHHHH (scalar
-   values), unknown escapes and a trailing backslash; NOT \c, \' \" \?, \NNN without the zero) the builtin writes
+   values), unknown escapes and a trailing backslash; NOT \c, \' \DQUOTE \?, \NNN without the zero) the builtin writes
    the Spec's bytes with the Spec's status *)
 Theorem C24_echo_matches : forall args out st, spec_echo args = Some (out, st) -> echo_builtin args = BOut out st.
 Proof. exact echo_matches. Qed.
 Print Assumptions C24_echo_matches.
 
-(* a %b argument (and Format("%b", [arg])): same escapes plus \NNN *)
+(* a %b argument (and Format(DQUOTE%bDQUOTE, [arg])): same escapes plus \NNN *)
 Theorem C24_percent_b_matches : forall arg o, spec_b MPercentB arg = Some o -> format [PCT; 98] (Some [arg]) = FOk o 1.
 Proof. exact (fun arg o H => format_pct_b arg o (format_b_spec MPercentB arg o eq_refl H)). Qed.
 Print Assumptions C24_percent_b_matches.
@@ -49,68 +71,85 @@ Print Assumptions C24_percent_b_matches.
 (* printf '%.2s' 'abcdef'  -> bash: 'ab' status 0 *)
 Theorem C24_refuted_precision_rejected : printf_builtin w_precision_rejected <> BOut [97;98] 0 /\ (fun a => spec_printf (hd [] a) (tl a)) w_precision_rejected = None.
 Proof. exact refuted_precision_rejected. Qed.
+Print Assumptions C24_refuted_precision_rejected.
 
 (* printf '%d' 'abc'  -> bash: '0' status 1 *)
 Theorem C24_refuted_invalid_number_argument : printf_builtin w_invalid_number_argument <> BOut [48] 1 /\ (fun a => spec_printf (hd [] a) (tl a)) w_invalid_number_argument = None.
 Proof. exact refuted_invalid_number_argument. Qed.
+Print Assumptions C24_refuted_invalid_number_argument.
 
-(* printf '%d' "'a"  -> bash: '97' status 0 *)
+(* printf '%d' DQUOTE'aDQUOTE  -> bash: '97' status 0 *)
 Theorem C24_refuted_char_constant_argument : printf_builtin w_char_constant_argument <> BOut [57;55] 0 /\ (fun a => spec_printf (hd [] a) (tl a)) w_char_constant_argument = None.
 Proof. exact refuted_char_constant_argument. Qed.
+Print Assumptions C24_refuted_char_constant_argument.
 
 (* printf '%05s|' 'ab'  -> bash: '   ab|' status 0 *)
 Theorem C24_refuted_zero_flag_on_string : printf_builtin w_zero_flag_on_string <> BOut [32;32;32;97;98;124] 0 /\ (fun a => spec_printf (hd [] a) (tl a)) w_zero_flag_on_string = None.
 Proof. exact refuted_zero_flag_on_string. Qed.
+Print Assumptions C24_refuted_zero_flag_on_string.
 
 (* printf '%5b|' 'x'  -> bash: '    x|' status 0 *)
 Theorem C24_refuted_b_width_ignored : printf_builtin w_b_width_ignored <> BOut [32;32;32;32;120;124] 0 /\ (fun a => spec_printf (hd [] a) (tl a)) w_b_width_ignored = None.
 Proof. exact refuted_b_width_ignored. Qed.
+Print Assumptions C24_refuted_b_width_ignored.
 
 (* printf '%+x' '255'  -> bash: 'ff' status 0 *)
 Theorem C24_refuted_sign_flag_on_unsigned : printf_builtin w_sign_flag_on_unsigned <> BOut [102;102] 0 /\ (fun a => spec_printf (hd [] a) (tl a)) w_sign_flag_on_unsigned = None.
 Proof. exact refuted_sign_flag_on_unsigned. Qed.
+Print Assumptions C24_refuted_sign_flag_on_unsigned.
 
 (* printf '%+ d' '5'  -> bash: '+5' status 0 *)
 Theorem C24_refuted_multiple_flags_rejected : printf_builtin w_multiple_flags_rejected <> BOut [43;53] 0 /\ (fun a => spec_printf (hd [] a) (tl a)) w_multiple_flags_rejected = None.
 Proof. exact refuted_multiple_flags_rejected. Qed.
+Print Assumptions C24_refuted_multiple_flags_rejected.
 
 (* printf 'abc%'  -> bash: 'abc' status 1 *)
 Theorem C24_refuted_incomplete_directive_output : printf_builtin w_incomplete_directive_output <> BOut [97;98;99] 1 /\ (fun a => spec_printf (hd [] a) (tl a)) w_incomplete_directive_output = None.
 Proof. exact refuted_incomplete_directive_output. Qed.
+Print Assumptions C24_refuted_incomplete_directive_output.
 
 (* printf '%5%|'  -> bash: '' status 1 *)
 Theorem C24_refuted_percent_with_flags_or_width : printf_builtin w_percent_with_flags_or_width <> BOut [] 1 /\ (fun a => spec_printf (hd [] a) (tl a)) w_percent_with_flags_or_width = None.
 Proof. exact refuted_percent_with_flags_or_width. Qed.
+Print Assumptions C24_refuted_percent_with_flags_or_width.
 
 (* printf '%u' '18446744073709551615'  -> bash: '18446744073709551615' status 0 *)
 Theorem C24_refuted_unsigned_beyond_int64 : printf_builtin w_unsigned_beyond_int64 <> BOut [49;56;52;52;54;55;52;52;48;55;51;55;48;57;53;53;49;54;49;53] 0 /\ (fun a => spec_printf (hd [] a) (tl a)) w_unsigned_beyond_int64 = None.
 Proof. exact refuted_unsigned_beyond_int64. Qed.
+Print Assumptions C24_refuted_unsigned_beyond_int64.
 
 (* printf '%b' 'a\\cb' 'x'  -> bash: 'a' status 0 *)
 Theorem C24_refuted_b_backslash_c : printf_builtin w_b_backslash_c <> BOut [97] 0 /\ (fun a => spec_printf (hd [] a) (tl a)) w_b_backslash_c = None.
 Proof. exact refuted_b_backslash_c. Qed.
+Print Assumptions C24_refuted_b_backslash_c.
 
-(* printf '%b' "\\'"  -> bash: "\\'" status 0 *)
+(* printf '%b' DQUOTE\\'DQUOTE  -> bash: DQUOTE\\'DQUOTE status 0 *)
 Theorem C24_refuted_b_quote_escape : printf_builtin w_b_quote_escape <> BOut [92;39] 0 /\ (fun a => spec_printf (hd [] a) (tl a)) w_b_quote_escape = None.
 Proof. exact refuted_b_quote_escape. Qed.
+Print Assumptions C24_refuted_b_quote_escape.
 
 (* printf '%5s|' 'é'  -> bash: '   é|' status 0 *)
 Theorem C24_refuted_width_counts_runes : printf_builtin w_width_counts_runes <> BOut [32;32;32;195;169;124] 0 /\ (fun a => spec_printf (hd [] a) (tl a)) w_width_counts_runes = None.
 Proof. exact refuted_width_counts_runes. Qed.
+Print Assumptions C24_refuted_width_counts_runes.
 
 (* printf '\\ud800'  -> bash: b'\xed\xa0\x80' status 0 *)
 Theorem C24_refuted_unicode_escape_nonscalar : printf_builtin w_unicode_escape_nonscalar <> BOut [237;160;128] 0 /\ (fun a => spec_printf (hd [] a) (tl a)) w_unicode_escape_nonscalar = None.
 Proof. exact refuted_unicode_escape_nonscalar. Qed.
+Print Assumptions C24_refuted_unicode_escape_nonscalar.
 
 (* printf '\\%d|' '7'  -> bash: '\\7|' status 0 *)
 Theorem C24_refuted_backslash_percent : printf_builtin w_backslash_percent <> BOut [92;55;124] 0 /\ (fun a => spec_printf (hd [] a) (tl a)) w_backslash_percent = None.
 Proof. exact refuted_backslash_percent. Qed.
+Print Assumptions C24_refuted_backslash_percent.
 
 (* echo '-ne' 'a\\n'  -> bash: 'a\n' status 0 *)
 Theorem C24_refuted_echo_combined_options : echo_builtin w_echo_combined_options <> BOut [97;10] 0 /\ spec_echo w_echo_combined_options = None.
 Proof. exact refuted_echo_combined_options. Qed.
+Print Assumptions C24_refuted_echo_combined_options.
 
 (* echo '-e' '\\101'  -> bash: '\\101\n' status 0 *)
 Theorem C24_refuted_echo_bare_octal : echo_builtin w_echo_bare_octal <> BOut [92;49;48;49;10] 0 /\ spec_echo w_echo_bare_octal = None.
 Proof. exact refuted_echo_bare_octal. Qed.
+Print Assumptions C24_refuted_echo_bare_octal.
 
